@@ -173,7 +173,13 @@ def kwOfJson (j : Json) : Except String Kw := do
   let dests ← match getOpt j "dests" with | .null => pure none | v => do pure (some (← strList v))
   let units ← match getOpt j "units" with | .null => pure none | v => do pure (some (← strList v))
   let tr ← match getOpt j "transposed" with | .null => pure none | v => do pure (some (← v.getBool?))
-  pure ⟨name, dests, units, tr⟩
+  let ds ← optStr (getOpt j "dests_str")
+  let st ← match getOpt j "strict" with | .null => pure none | v => do pure (some (← v.getBool?))
+  -- "origin": absent key = not given; {"set": <origin or null>} = given (null = an explicit None)
+  let orig ← match getOpt j "origin" with
+    | .null => pure none
+    | v => do pure (some (← originOfJson (getOpt v "set")))
+  pure ⟨name, dests, units, tr, ds, orig, st⟩
 
 def mutOfJson (j : Json) : Except String Mut := do
   let m ← (← j.getObjVal? "m").getStr?
